@@ -17,7 +17,7 @@ func init() { zeroSizeSeqElems = true }
 const ruleC11 = "a random SCALE type (reflect: StructOf with shuffled scale:\"N\" tags and scale:\"-\" fields, ArrayOf, SliceOf (also of zero-size elements: empty structs, structs of skipped fields, arrays of those), MapOf, PointerTo=Option, " +
 	"named primitives, *big.Int, *Uint128, scale.Result, harness-defined VaryingDataType; depth <= 4) and a random value of it with integers concentrated on " +
 	"compact-mode boundaries (2^6, 2^14, 2^30, every byte length 4..8, 2^64.., 2^536-1); oracle: scale.Marshal(v) == refscale encoding (maps key-sorted) byte for byte, " +
-	"marshalling twice is identical, scale.Unmarshal into a fresh destination gives a value whose value tree equals v (nil/empty slices identified, skipped fields ignored); " +
+	"marshalling twice is identical, scale.Unmarshal into a fresh destination (from a buffer that is overwritten after the call) gives a value whose value tree equals v (nil/empty slices identified, skipped fields ignored); " +
 	"non-trivial = the value contains a compact integer in a >=4-byte mode or the type nests composites >= 2 deep; distinct by (type, canonical bytes)"
 
 // checkRoundTrip is the C11 oracle for one (type, value).
@@ -37,8 +37,15 @@ func checkRoundTrip(t failer, d *desc, v val) (want []byte) {
 		t.Fatalf("marshalling twice differs (%v)\n type %s\n 1st %s\n 2nd %s", err, d, hexs(got), hexs(again))
 	}
 	dst := newDst(d)
-	if err := safeUnmarshal(got, dst.Interface()); err != nil {
+	// the decoder gets its own copy of the bytes, which is overwritten afterwards: the
+	// decoded value must not depend on the caller keeping its input buffer intact
+	// (network code decodes from pooled read buffers)
+	wire := append([]byte{}, got...)
+	if err := safeUnmarshal(wire, dst.Interface()); err != nil {
 		t.Fatalf("Unmarshal(Marshal(v)) failed: %v\n type %s\n bytes %s", err, d, hexs(got))
+	}
+	for i := range wire {
+		wire[i] ^= 0xa5
 	}
 	back, err := fromGo(d, dst.Elem())
 	if err != nil {
